@@ -8,6 +8,7 @@ import (
 	"log"
 	"math/rand"
 	"regexp"
+	"runtime"
 	"strconv"
 	"strings"
 	"sync"
@@ -360,11 +361,12 @@ func RunPlans(plans []*Plan) RunResult {
 		if !c.Step() {
 			if alldone {
 				// workers may still be on their way to the deferred hooks: wait for silence
-				if c.SinceLastEvent() > 3*time.Millisecond {
+				if c.SinceLastEvent() > 1500*time.Microsecond {
 					break
 				}
 			}
-			time.Sleep(20 * time.Microsecond)
+			runtime.Gosched()
+			time.Sleep(5 * time.Microsecond)
 		}
 		if !alldone && (c.SinceLastEvent() > 10*time.Second || c.IdleStall(3000)) {
 			res.Hang = true
